@@ -95,7 +95,11 @@ func TestC15Liveness(t *testing.T) {
 		cfg.ElectionMS, cfg.ElectionVoteMS, cfg.ProposeMS, cfg.ProposeVoteMS = tm("tEl"), tm("tElV"), tm("tPr"), tm("tPrV")
 		cfg.PrecommitMS, cfg.PrecommitVoteMS, cfg.CommitMS = tm("tPc"), tm("tPcV"), tm("tCm")
 		cut := rapid.IntRange(1, 400).Draw(rt, "gstStep")
-		res := bftscen.RunOn(rt, bftscen.Options{CutSteps: cut, NoFinish: true, ExtraPartition: true, Families: "F1,F2,F3,F4,F4,F5,F5,F6,F7,F7,F7"}, cfg, mode, g1, g2)
+		scatter := rapid.IntRange(0, 4).Draw(rt, "scatter") == 0 || os.Getenv("C15_SCATTER") != ""
+		if scatter {
+			cut = 1 << 30 // the prefix runs to its end, then the replicas are spread over pairwise different rounds
+		}
+		res := bftscen.RunOn(rt, bftscen.Options{CutSteps: cut, NoFinish: true, ExtraPartition: true, Scatter: scatter, Families: "F1,F2,F3,F4,F4,F5,F5,F6,F7,F7,F7"}, cfg, mode, g1, g2)
 		s := res.S
 		defer s.Close()
 		for _, l := range res.Classes {
@@ -170,6 +174,10 @@ func TestC15Liveness(t *testing.T) {
 		// safety must hold through the suffix as well
 		if v := s.CheckSafety().Violations(true); len(v) > 0 {
 			rt.Fatalf("C15: safety violated during the run: %v\ncase: %s\nschedule: %s", v, res.Header(), bs.Wrap(s.Descriptor()))
+		}
+		// the mechanism liveness rests on: every Pacemaker() of every replica followed the documented fast-forward rule
+		if len(s.PacemakerMismatch) > 0 {
+			rt.Fatalf("C15 VIOLATION (pacemaker rule): %s\ncase: %s\nschedule: %s", strings.Join(s.PacemakerMismatch, "; "), res.Header(), bs.Wrap(s.Descriptor()))
 		}
 		m := sr.Elapsed - sr.ByzLed - 1
 		allow := allowance(sr)
